@@ -2151,3 +2151,53 @@ package crypto
 //@ func IsInvalidSignatureError mode int props C04 C05 C09
 //@ assigns nothing
 //@ ensures result == iserr(err, errInvalidSignature)
+
+// ---- printing and trivial accessors of the key and signature objects (C09: no panic, nothing assigned)
+//@ func (Signature).Bytes mode int props C09
+//@ assigns nothing
+//@ ensures result == s
+
+//@ func (Signature).String mode int props C09
+//@ assigns nothing
+
+//@ func (*scalar).String mode int props C09
+//@ requires a != nil
+//@ assigns nothing
+
+//@ func (*pointE2).String mode int props C09
+//@ requires p != nil
+//@ assigns nothing
+
+//@ func (*prKeyBLSBLS12381).String mode int props C09
+//@ requires sk != nil
+//@ assigns nothing
+
+//@ func (*pubKeyBLSBLS12381).String mode int props C09
+//@ requires pk != nil
+//@ assigns nothing
+
+//@ func (*prKeyBLSBLS12381).Size mode int props C05 C09
+//@ assigns nothing
+//@ ensures result == 32
+
+//@ func (*pubKeyBLSBLS12381).Size mode int props C05 C09
+//@ assigns nothing
+//@ ensures result == 96
+
+//@ func (*prKeyECDSA).Algorithm mode int recvinv props C09
+//@ requires skECDSAOK(sk)
+//@ assigns nothing
+//@ ensures result == sk.alg.algo
+
+//@ func (*pubKeyECDSA).Algorithm mode int recvinv props C09
+//@ requires pkECDSAOK(pk)
+//@ assigns nothing
+//@ ensures result == pk.alg.algo
+
+//@ func (*prKeyECDSA).String mode int recvinv props C09
+//@ requires skECDSARange(sk)
+//@ assigns nothing
+
+//@ func (*pubKeyECDSA).String mode int recvinv props C09
+//@ requires pkECDSARange(pk)
+//@ assigns nothing
